@@ -687,7 +687,12 @@ def _readers(ctx, chk):
                         from ..idioms import lookup_key_is
                         return lookup_key_is(e, name)
                     a, b_ = idx_of(lo, zs), idx_of(up, zt)
-                    if a is None or b_ is None:
+                    from ..idioms import lookup_defect
+                    bad_ = lookup_defect(lo) or lookup_defect(up)
+                    if (a is None or b_ is None) and bad_:
+                        ok = False
+                        desc = "levels[%s : %s]: %s" % (lt[:40], ut[:40], bad_)
+                    elif a is None or b_ is None:
                         ok = None
                         desc = "levels[%s : %s]: the bounds are not exact look-ups of the interval's start / thru instants" % (lt[:50], ut[:50])
                     else:
